@@ -504,4 +504,7 @@ def run(check, an: Analysis):
     seg = c20.failing_segment(fpaths)
     check.instance('Y', 'first:step', seg is None, where_fn(first),
                    'every step contains a MUST suspension', analysed=len(fpaths))
+    # the kernel rules every suspending operation rests on (shared; see _scope)
+    from . import _scope as _kernel
+    _kernel.check_kernel_core(check, an)
     check.stats.update(an.stats())
